@@ -15,7 +15,7 @@
    and a salted digest string are never equal and a salted string determines both parts: that is what the
    two-constructor type `idigest` states. *)
 From Coq Require Import List NArith Bool.
-From Sccache Require Import Base.Sx Gen.C04Consts Model.TimeMacro.
+From Sccache Require Import Base.Sx Gen.C04Consts Model.PpPaths Model.TimeMacro.
 Import ListNotations.
 Local Open Scope N_scope.
 
@@ -31,14 +31,18 @@ Record node := {
   n_bytes : bytes;   (* contents, for regular files *)
 }.
 
-(* a file-system snapshot: path -> what is there (absent = no entry) *)
+(* a file-system snapshot: canonical absolute path -> what is there (absent = no entry) *)
 Definition fsnap := list (path * node).
 
-Fixpoint fs_get (fs : fsnap) (p : path) : option node :=
+Fixpoint fs_find (fs : fsnap) (p : path) : option node :=
   match fs with
   | [] => None
-  | (q, nd) :: r => if bytes_eqb q p then Some nd else fs_get r p
+  | (q, nd) :: r => if bytes_eqb q p then Some nd else fs_find r p
   end.
+
+(* stat / open of a path: the snapshot is keyed by canonical absolute paths; `.` and `..` in the path given are
+   resolved lexically (no symlinks) *)
+Definition fs_get (fs : fsnap) (p : path) : option node := fs_find fs (canon_path p).
 
 (* File::open + read to the end: fails on a missing file; a directory opens but read() fails *)
 Definition fs_read (fs : fsnap) (p : path) : option bytes :=
@@ -99,6 +103,15 @@ Definition include_file_digest (cd : D) (fl : flags) (date : bytes) (mtime : opt
       | None => None
       end
     else Some (Salted cd (HT od None)).
+
+(* the digest of the INPUT file that preprocessor_cache_entry_hash_key mixes into the manifest key
+   (None = `Ok(None)`: the mode is disabled for this request) *)
+Definition input_file_digest (cfg : config) (b : bytes) (date : bytes) (mtime : N) : option idigest :=
+  if ignore_time_macros cfg then Some (Plain (H b))
+  else
+    let fl := scan_file b in
+    if fl_time fl then None
+    else include_file_digest (H b) fl date (Some mtime).
 
 Record include_entry := {
   ie_path : path;
@@ -300,6 +313,29 @@ Definition record (cfg : config) (e : entry) (fs : fsnap) (start : N) (date : by
   | Some [] => (e, RecEmpty)
   | Some included => (add_result e fs start k (sort_files included), RecOk)
   end.
+
+(* one execution of the recording half: the file system, compile start instant and date it ran in, and what
+   the preprocessor output announced *)
+Record rec_op := {
+  ro_fresh : bool;
+  ro_fs : fsnap;
+  ro_start : N;
+  ro_date : bytes;
+  ro_input : path;
+  ro_key : key;
+  ro_incs : list (path * bool);
+}.
+
+(* a disabled / empty recording stores nothing: the stored entry stays as it was *)
+Definition apply_rec (cfg : config) (e : entry) (op : rec_op) : entry * rec_status :=
+  let base := if ro_fresh op then entry_new else e in
+  match record cfg base (ro_fs op) (ro_start op) (ro_date op) (ro_input op) (ro_key op) (ro_incs op) with
+  | (e', RecOk) => (e', RecOk)
+  | (_, st) => (e, st)
+  end.
+
+Definition run_recs (cfg : config) (ops : list rec_op) : entry :=
+  fold_left (fun e op => fst (apply_rec cfg e op)) ops entry_new.
 
 End Digests.
 
